@@ -78,6 +78,35 @@ func (in *Interp) noteIndex(kind string, x, idx Val, site ssa.Instruction) {
 			}
 		}
 	}
+	if !rec.Proved {
+		// linear arithmetic over everything decided on the path (linprove.go):
+		// 0 <= idx and idx (+1) <= len(x) follow from the comparisons, however
+		// they are spelt and through however many intermediate variables
+		if li, ok := LinOf(idx); ok {
+			f := &LinFacts{}
+			for _, c := range in.CondV {
+				f.AddCond(c)
+			}
+			ll := LinAtom("len(" + rec.X + ")")
+			atoms := map[string]bool{"len(" + rec.X + ")": true}
+			for _, g := range f.GE {
+				for k := range g.T {
+					atoms[k] = true
+				}
+			}
+			for k := range li.T {
+				atoms[k] = true
+			}
+			for k := range atoms {
+				if strings.HasPrefix(k, "len(") {
+					f.AddGE(LinAtom(k))
+				}
+			}
+			if (in.nonNegative(idx) || f.Proves(li)) && f.Proves(ll.Sub(li).Plus(-need)) {
+				rec.Proved, rec.Why = true, "linear arithmetic over the decisions of the path"
+			}
+		}
+	}
 	in.IdxLog = append(in.IdxLog, rec)
 }
 
